@@ -1,0 +1,9 @@
+// Copyright 2024 Contributors to the Veraison project.
+// SPDX-License-Identifier: Apache-2.0
+
+//go:build !verif
+
+package psatoken
+
+// verifObserve is a no-op unless the library is built with the "verif" tag.
+func verifObserve(string, string) {}
